@@ -10,7 +10,7 @@ CHECKS = {
         design="3/C01"),
     "C02": dict(
         technique="property-based testing (proptest) with a malicious-client device (real sharding code run on arbitrary vectors through a Type wrapper) and wire-level tampering; independent validity predicate as oracle; exhaustive sweep over message positions",
-        text="Invalid/near-miss vectors are sharded by the library's own sharding code with an honest proof and must be rejected by the real instance (4 independent verification keys before an acceptance is reported); honest reports are altered on the wire (bit flips, field-element deltas, truncation, swaps, drops, duplicates, foreign messages) and a single effective alteration must make some aggregator fail, several alterations may only complete with valid (and, if no input share was touched, honest) outputs; every element position of leader share and verifier shares is swept for fixed configurations.",
+        text="Invalid/near-miss vectors are sharded by the library's own sharding code with an honest proof and must be rejected by the real instance (4 independent verification keys before an acceptance is reported); honest reports are altered on the wire (bit flips, field-element deltas, truncation, swaps, drops, duplicates, foreign messages) and a single effective alteration must make some aggregator fail, several alterations may only complete with valid (and, if no input share was touched, honest) outputs; every element position of leader share and verifier shares is swept for fixed configurations, as is every pair of verifier-share elements altered by (d, +-d) as one alteration, and (for histogram / multihot / L1-bound) every ordered pair of positions of the encoded vector edited so that the type's linear relation still holds and only the bit checks can refuse.",
         note="Trusted: the validity predicate written from the type documentation; soundness error <= 2^-50 per attempt.",
         design="3/C02"),
     "C04": dict(
@@ -20,12 +20,12 @@ CHECKS = {
         design="3/C04"),
     "C05": dict(
         technique="property-based testing (proptest) clause by clause + exhaustive enumeration of wire-domain roots of unity",
-        text="Generated circuits/parameters over both fields, valid (incl. alternative valid encodings) and invalid inputs, degenerate and uniform randomness, root-of-unity and next-order-root query points, 1..8 shares: lengths, wrong-length refusal, completeness for every non-root randomness, soundness with re-tests, share linearity, root refusal (two-sided), every proof position altered => rejected; all roots of all domains up to 2^6 (2^10 thorough) enumerated.",
+        text="Generated circuits/parameters over both fields, valid (incl. alternative valid encodings) and invalid inputs, degenerate and uniform randomness, root-of-unity and next-order-root query points, 1..8 shares: lengths, wrong-length refusal, completeness for every non-root randomness, soundness with re-tests, share linearity, root refusal (two-sided), every verifier element and element pair (d, +-d) altered => refused by decide, every proof position altered => rejected; all roots of all domains up to 2^6 (2^10 thorough) enumerated.",
         note="Trusted: documented encoding/validity model; soundness error of the FLP.",
         design="3/C05"),
     "C06": dict(
         technique="exhaustive small-tree enumeration + property-based evaluation histories (proptest) with differential oracle (cached vs NoCache) and programmed-value oracle",
-        text="All prefixes of all trees <= 6 bits (8 thorough) for 4 value-type pairs; generated histories on trees up to 400 bits sharing NoCache/HashMapCache/RingBufferCache(0..8,64)/a lossy harness cache; every evaluation must equal the programmed value/zero and the NoCache result.",
+        text="All prefixes of all trees <= 6 bits (8 thorough) for 4 value-type pairs; generated histories on trees up to 400 bits sharing NoCache/HashMapCache/RingBufferCache(0..8,64)/a lossy harness cache; every evaluation must equal the programmed value/zero and the NoCache result; inputs with non-zero storage offsets; over-long prefixes refused with a warm cache exactly as without one.",
         note="Trusted: Idpf::gen keys from the OS (verdict independent by perfect correctness).",
         design="3/C06"),
     "C09": dict(
@@ -50,7 +50,7 @@ CHECKS = {
         design="3/C12"),
     "C13": dict(
         technique="property-based testing (proptest): generated partitions, permutations and merge trees vs a single left-to-right pass",
-        text="1..30 arbitrary output shares per aggregator (through the real decoders) for Prio3 types, Poplar1 inner/leaf and Prio2; byte equality of aggregate shares under any batching/merge order, identity, commutativity, unshard agreement, refusal of mismatched length/level kind leaving the accumulator unchanged.",
+        text="1..30 arbitrary output shares per aggregator (through the real decoders) for Prio3 types, Poplar1 inner/leaf and Prio2; byte equality of aggregate shares under any batching/merge order, identity, commutativity, unshard agreement, refusal of mismatched length/level kind by accumulate, merge and unshard, leaving the accumulator unchanged.",
         note="Trusted: nothing beyond the harness itself (pure metamorphic relation).",
         design="3/C13"),
     "C14": dict(
@@ -65,32 +65,32 @@ CHECKS = {
         design="3/C15"),
     "C17": dict(
         technique="metamorphic property-based testing (byte-wise comparison of shares across two measurements under identical randomness)",
-        text="Prio3 (all types, 2..254 aggregators, three XOFs): helper input shares and the leader blind byte-identical, leader measurement-share difference equals the difference of the documented encodings, only the leader's joint-randomness part differs; Poplar1 (two XOF instantiations): both input shares byte-identical, only the public share differs.",
+        text="Prio3 (all types, 1..254 aggregators, three XOFs; sharding randomness uniform, all-zero, all-ones or one 16/32-byte block repeated): helper input shares and the leader blind byte-identical, leader measurement-share difference equals the difference of the documented encodings, only the leader's joint-randomness part differs; Poplar1 (two XOF instantiations): both input shares byte-identical, only the public share differs.",
         note="Trusted: the documented encoding model.",
         design="3/C17"),
     "C18": dict(
         technique="property-based testing with generated mismatch plans and a plan-derived oracle (must fail / must finish with honest output shares)",
-        text="Honest reports (Prio3 with and without joint randomness, Poplar1 inner and leaf) verified under plans that deviate context, nonce, verification key, aggregator identifier and algorithm identifier at one, several or all aggregators; every aggregator combines under its own view; acceptance under a mismatch reported only after 4 independent keys; the two documented exceptions (consistent key substitution; consistent nonce substitution without joint randomness) must finish with honest outputs.",
+        text="Honest reports (Prio3 with and without joint randomness, Poplar1 inner and leaf) verified under plans that deviate context, nonce, verification key, aggregator identifier and algorithm identifier at one, several or all aggregators (identifiers include values aliasing the true one mod 2^8/2^16/2^32; half of the cases first run an honest step on the same instances, since the API is stateless by contract); every aggregator combines under its own view; acceptance under a mismatch reported only after 4 independent keys; the two documented exceptions (consistent key substitution; consistent nonce substitution without joint randomness) must finish with honest outputs.",
         note="Trusted: the plan-to-expectation table in engine/src/c18.rs; XOFs are collision resistant.",
         design="3/C18"),
     "C19": dict(
         technique="property-based testing with a reference model of the query-point derivation (differential on verify_init vs verify_init_with_query_rand) and constructed nonces; position sweep",
-        text="Lengths around powers of two, 0/1 vectors accepted and summed exactly, non-binary vectors and altered leader elements / helper seed / verifier shares rejected (4 keys), every leader-share element swept for small lengths; the aggregators' query point equals the documented HMAC-SHA256/AES-CTR derivation with interpolation nodes skipped, exercised with nonces whose first candidate is a node (found by search).",
+        text="Lengths around powers of two, 0/1 vectors accepted and summed exactly, non-binary vectors and altered leader elements / helper seed / verifier shares rejected (4 keys), every leader-share element swept for small lengths; the aggregators' query point equals the documented HMAC-SHA256/AES-CTR derivation with interpolation nodes skipped, exercised with nonces whose first candidate is a node (found by search; at power-of-two lengths a primitive 2n-th root, which distinguishes the node count from one computed from the length alone).",
         note="Trusted: the documented derivation of the query point; sharding randomness comes from the OS (verdict independent up to soundness error).",
         design="3/C19"),
     "C20": dict(
         technique="exhaustive small-scope enumeration against a reference predicate + property-based structured histories",
-        text="All 273 parameters over <= 3 bits against all histories of length <= 2 (quick: a third of the length-2 ones), all 54 240 prefix lists of <= 4 prefixes of <= 3 bits through constructor, encoder (vs the specified layout) and decoder with non-canonical variants; generated histories up to 64 bits with the classic wrong-rule twists; single-use rule for Prio3/Prio2.",
+        text="All 273 parameters over <= 3 bits against all histories of length <= 2 (quick: a third of the length-2 ones), all 54 240 prefix lists of <= 4 prefixes of <= 3 bits through constructor, encoder (vs the specified layout) and decoder with non-canonical variants; generated histories up to 140 bits with level gaps from 1 to beyond a machine word and the classic wrong-rule twists; stray padding bits in final and non-final prefixes; single-use rule for Prio3/Prio2.",
         note="Trusted: the reference predicate written from the property text.",
         design="3/C20"),
     "C16": dict(
         technique="table-driven property-based testing of every Result-returning entry point with extreme-value argument lattices and per-class expectations (MustErr / MustOk+exercise / NoPanic)",
-        text="Constructors of all Prio3/FLP types, Prio2, Poplar1 operations with 0 bits, measurements out of range / wrong length (exact accept-reject oracle), randomness length, aggregator ids, swapped roles, directly constructed malformed shares, share counts, foreign states/messages, aggregate/unshard/decode_result lengths, IDPF gen, prefix lists, DP constructors and noise application; constructed extremes are used end to end within a memory budget.",
-        note="Trusted: the documented-domain table in engine/src/c16.rs. Nine defects found by this check were repaired (known_findings.txt).",
+        text="Constructors of all Prio3/FLP types, Prio2, Poplar1 operations with 0 bits, measurements out of range / wrong length (exact accept-reject oracle), randomness length, aggregator ids, swapped roles, directly constructed malformed shares (incl. leader-form shares under helper ids and vice versa), share counts (incl. 255, 256, 256+n, 512+n, 65536+n), foreign states/messages, aggregate/unshard/decode_result lengths, IDPF gen, prefix lists, DP constructors and noise application; constructed extremes are used end to end within a memory budget.",
+        note="Trusted: the documented-domain table in engine/src/c16.rs. Ten defects found by this check were repaired (known_findings.txt).",
         design="3/C16"),
     "C03": dict(
         technique="property-based testing (proptest): generated Poplar1 batches and admissible aggregation-parameter chains (incl. deep levels > 21845) vs plain prefix counts; heavy hitters vs brute force",
-        text="Generated exploration over bit lengths 1..65536 (deep levels in every run), candidate sets mixing on-path prefixes, siblings and random strings, chains of parameters on the same reports, three XOF instantiations incl. a rejection-heavy one; two-round verification over the wire; oracle is a plain count of inputs starting with each prefix and brute-force heavy hitters.",
+        text="Generated exploration over bit lengths 1..65536 (deep levels in every run), candidate sets mixing on-path prefixes, siblings and random strings, candidates and inputs built from bit vectors with non-zero storage offsets (incl. shift-coincident pairs), chains of parameters on the same reports, three XOF instantiations incl. a rejection-heavy one; two-round verification over the wire; oracle is a plain count of inputs starting with each prefix and brute-force heavy hitters.",
         note="Trusted: the harness's bit-string model and prefix counting; deterministic sharding through TestVectorClient::shard_with_random.",
         design="3/C03"),
     "C07": dict(
@@ -99,8 +99,8 @@ CHECKS = {
         note="Trusted: the layouts in engine/src/codec.rs (independent of the decoders). The thorough command additionally builds the cargo-fuzz target /verif/fuzz/fuzz_targets/codec.rs against /repo and runs it (3M executions on 16 jobs, seeds = the grammar's canonical encodings); an artifact is turned into a JSON replay by the in-process oracle; the quick command replays /verif/fuzz/regress/*.",
         design="3/C07"),
     "C08": dict(
-        technique="exhaustive short-string enumeration + header-extreme enumeration + mutation-based generation under panic/allocation/watchdog monitors; thorough tier adds a coverage-guided libFuzzer campaign (ASan, -malloc_limit_mb, -timeout)",
-        text="All byte strings of length ≤ 2 for a fixed table of 100+ (type, parameter) pairs and all 3-byte strings for header-bearing types are enumerated; header fields at extreme values × body lengths enumerated; generated near-valid encodings with all single-bit flips and truncations, splices and random strings; overflow checks on; per-thread allocation accounting with a bound proportional to input length and parameter size; supervised child process turns aborts/hangs into reproducible violations.",
+        technique="exhaustive short-string enumeration + header-extreme enumeration + mutation-based generation under panic/allocation/CPU-time/watchdog monitors; thorough tier adds a coverage-guided libFuzzer campaign (ASan, -malloc_limit_mb, -timeout)",
+        text="All byte strings of length ≤ 2 for a fixed table of 100+ (type, parameter) pairs and all 3-byte strings for header-bearing types are enumerated; header fields at extreme values × body lengths enumerated; generated near-valid encodings with all single-bit flips and truncations, splices and random strings, near-valid strings decoded under aggregator identifiers that do not exist (2..2^63+1, incl. values aliasing a real one mod 2^8/2^16/2^32), well-formed and almost well-formed encodings of 40 KB - 1.6 MB, the public vector helpers of prio::codec with the cursor anywhere incl. past the end; overflow checks on; thread CPU time bounded by 2 s + 20 us per byte (confirmed by repetition); per-thread allocation accounting with a bound proportional to input length and parameter size; supervised child process turns aborts/hangs into reproducible violations.",
         note="Trusted: the counting allocator; the allocation bound constants (64 KiB + 64·len + 8·nominal size). The thorough command additionally runs the cargo-fuzz target /verif/fuzz/fuzz_targets/codec.rs (panics abort, 256 MiB malloc limit, 10 s timeout).",
         design="3/C08"),
 }
